@@ -1,0 +1,10 @@
+//go:build verif
+
+package memefish
+
+// VerifNextTokenNoPanic exposes the recovery-mode lexer step (Lexer.nextToken(true)),
+// which is otherwise reachable only through the parser's error-recovery skip loops.
+// It exists only in builds with the "verif" build tag.
+func (l *Lexer) VerifNextTokenNoPanic() {
+	l.nextToken(true)
+}
